@@ -119,6 +119,44 @@ def check_sequences(env, acc):
             acc.violation("editing_one_instance_changed_the_next", {"gate": cls, "seed": env.seed, "scenario": "sequence"},
                           {"max_diff": float(np.abs(A1 - A0).max())})
         acc.state("seq-fixed", cls)
+    # a gate object used to build something (added twice to a register next to its own ancillas, chained with +)
+    # is still the gate afterwards, and the composite is the product
+    for cls, args, n in (("CNOT_Heralded", (), 2), ("CZ_Heralded", (), 2), ("CZ", (), 2), ("CNOT", (0,), 2), ("H", (), 1), ("T", (), 1)):
+        acc.tick("executions"); acc.tick("transitions", 2)
+        g = getattr(qubit, cls)(*args)
+        A0, _, _ = rq.circuit_gate_matrix(g, n)
+        h0 = (g.n_modes, g.input_modes, g.heralds)
+        host = lw.Circuit(2 * (n + 1))
+        try:
+            host.add(g, 0); host.add(g, 2)
+        except Exception as e:  # noqa: BLE001
+            acc.violation("gate_cannot_be_added_twice", {"gate": cls, "seed": env.seed, "scenario": "sequence"}, {"error": repr(e)})
+            continue
+        try:
+            A1, _, _ = rq.circuit_gate_matrix(g, n)
+            same = np.abs(A1 - A0).max() <= TOL and (g.n_modes, g.input_modes, g.heralds) == h0
+        except Exception:  # noqa: BLE001
+            same = False
+        if not same:
+            acc.violation("using_a_gate_changed_it", {"gate": cls, "how": "added twice", "seed": env.seed, "scenario": "sequence"}, None)
+        acc.state("seq-reuse", cls)
+    chains = [(("H", ()), ("Z", ()), ("H", ())), (("Rz", (0.4,)), ("Ry", (1.1,)), ("Rz", (0.4,))), (("S", ()), ("H", ()), ("S", ()))]
+    for chain in chains:
+        acc.tick("executions"); acc.tick("transitions", 2)
+        objs = {}
+        for nm, a in chain:
+            objs.setdefault((nm, a), getattr(qubit, nm)(*a))        # the same object where the same gate recurs
+        mats = {k: rq.circuit_gate_matrix(v, 1)[0] for k, v in objs.items()}
+        comp = objs[chain[0]] + objs[chain[1]] + objs[chain[2]]
+        want = rq.single(chain[2][0], *chain[2][1]) @ rq.single(chain[1][0], *chain[1][1]) @ rq.single(chain[0][0], *chain[0][1])
+        s2, err = rq.compare_up_to_scalar(rq.circuit_gate_matrix(comp, 1)[0], want)
+        cc = {"gate": "+".join(c_[0] for c_ in chain), "seed": env.seed, "scenario": "sequence"}
+        if err > TOL or abs(s2 - 1) > 1e-9:
+            acc.violation("not_the_named_gate", cc, {"max_err": err})
+        for k, v in objs.items():
+            if np.abs(rq.circuit_gate_matrix(v, 1)[0] - mats[k]).max() > TOL:
+                acc.violation("using_a_gate_changed_it", {**cc, "how": "operand of +", "operand": k[0]}, None)
+        acc.state("seq-chain", cc["gate"])
 
 
 def check_swaps(env, acc, max_mode):
